@@ -126,6 +126,14 @@ def run_one(seed: int, tid: int, mode: str):
                     sel = [rng.choice(rdy)]
             else:
                 sel = [rng.randrange(len(ops)) for _ in range(rng.randint(0, 2))]
+            # occasionally a container mixing operators of TWO pipelines (ready operators only, so admissible)
+            cross = None
+            if multi and len(pipes) >= 2 and rng.random() < 0.12:
+                pj = rng.choice([x for x in range(len(pipes)) if x != pi])
+                ops2 = pipes[pj][1]
+                rdy2 = [i for i, o in enumerate(ops2) if o.state() in (S.PENDING, S.FAILED) and all(q.state() == S.COMPLETED for q in o.parents)]
+                if rdy2 and not any(x[0] == pj or (x[5] and x[5][0] == pj) for x in specs) and not any(x[5] and x[5][0] == pi for x in specs):
+                    cross = (pj, [rng.choice(rdy2)])
             pool = rng.randrange(npools) if valid or rng.random() < 0.97 else rng.choice([-1, npools, npools + 3])
             R = ex.pools[pool] if 0 <= pool < npools else ex.pools[0]
             Q = k["Q"]
@@ -149,6 +157,8 @@ def run_one(seed: int, tid: int, mode: str):
                     continue
                 if any(set(sel) & set(x[1]) for x in specs if x[0] == pi):
                     continue
+                if any(x[5] and x[5][0] == pi and set(x[5][1]) & set(sel) for x in specs):
+                    continue
                 sel = sorted(set(sel))
                 if not multi:
                     sel = sel[:1]
@@ -160,15 +170,17 @@ def run_one(seed: int, tid: int, mode: str):
                             ok = False
                 if not ok:
                     continue
-            specs.append((pi, sel, c, r, pool))
+            specs.append((pi, sel, c, r, pool, cross))
         # S phase: build the Assignment objects (this already moves operators to ASSIGNED)
         asg, asg_json, raised = [], [], None
-        for (pi, sel, c, r, pool) in specs:
+        for (pi, sel, c, r, pool, cross) in specs:
             p, ops = pipes[pi]
             ru = r * k["U"]
-            asg_json.append({"ops": [[pi + 1, i + 1] for i in sel], "cpu": c, "ram": int(ru), "ramr": 0, "pool": pool + 1})
+            refs = [[pi + 1, i + 1] for i in sel] + ([[cross[0] + 1, i + 1] for i in cross[1]] if cross else [])
+            objs = [ops[i] for i in sel] + ([pipes[cross[0]][1][i] for i in cross[1]] if cross else [])
+            asg_json.append({"ops": refs, "cpu": c, "ram": int(ru), "ramr": 0, "pool": pool + 1})
             try:
-                asg.append(Assignment([ops[i] for i in sel], c, float(r), p.priority, pool, p.pipeline_id))
+                asg.append(Assignment(objs, c, float(r), p.priority, pool, p.pipeline_id))
             except Exception as e:  # noqa: BLE001 - any exception is a refusal
                 raised = f"{type(e).__name__}: {str(e)[:80]}"
                 break
